@@ -380,7 +380,7 @@ class Norm:
             return ("lex", e[1])
         h, a = self.head(e)
         if h in PRIM_SPAN:
-            return ("lex", h)
+            return ("lex", h, repr(a))     # one primitive per distinct expression: tag("a") and tag("b") are two oracles
         if h == "alt":
             items = a[0][1] if len(a) == 1 and a[0][0] == "tuple" else a
             return ("alt", [self.any_parser(x) for x in items])
@@ -508,7 +508,7 @@ class Norm:
             x, y = self.pexp(a[0]), self.pexp_or_drop(a[1])
             return (("tuple", ["one", "one"]), ("manytill", x, y))
         if h in PRIM_SPAN and getattr(self, "span_ok", False):
-            return ("one", ("lexleaf", ("lex", h)))
+            return ("one", ("lexleaf", ("lex", h, repr(a))))
         return ("one", self.pexp(e))
 
     def pexp_or_drop(self, e):
@@ -713,7 +713,7 @@ class Emit:
         if k == "term":
             return "C %d" % self.term(e[1], e[2])
         if k == "lex":
-            return "FPrim %d" % self.prim(("lex", e[1]))
+            return "FPrim %d" % self.prim(("lex",) + tuple(e[1:]))
         if k == "lexleaf":
             return "FLeaf (%s)" % self.fx(e[1])
         if k in ("seq", "alt"):
